@@ -486,6 +486,30 @@ def f_limitsize(p):
     return n
 
 
+def f_wide(p):
+    """relations of arity 7 and 8 with default storage (the synthesiser's indirect relations), one of them an input, searched
+    through two indexes"""
+    r = p.r
+    n = p.fresh("wi")
+    cols = [("c%d" % i, "number") for i in range(7)]
+    p.decl(n, cols, output=False)
+    dom = p.meta["domain"]
+    rows = set()
+    for _ in range(r.randrange(3, 25)):
+        a, b = r.randrange(dom), r.randrange(dom)
+        rows.add((a, b, a + b, r.randrange(4), 7, b, r.randrange(3)))
+    p.facts[n] = [tuple("%d" % v for v in t) for t in sorted(rows)]
+    m = p.fresh("wo")
+    p.decl(m, [("c%d" % i, "number") for i in range(8)])
+    p.rule("%s(a,b,c,d,e,f,g,x) :- %s(a,b,c,d,e,f,g), e1(a,x)." % (m, n))
+    p.rule("%s(a,b,c,d,e,f,g,0) :- %s(a,b,c,d,e,f,g), n1(f)." % (m, n))
+    q = p.fresh("wq")
+    p.decl(q, [("a", "number"), ("g", "number")])
+    p.rule("%s(a,g) :- n1(g), %s(a,_,_,_,_,_,g,_)." % (q, m))
+    p.rule("%s(a,g) :- n1(a), %s(a,_,_,_,_,_,g)." % (q, n))
+    return m
+
+
 def f_io_relation(p):
     """a relation that is both .input and .output (no rules of its own) and feeds a derived relation"""
     r = p.r
@@ -525,7 +549,7 @@ def f_typed_input(p):
 
 
 FRAGMENTS = [f_exists, f_exists_idx, f_facts, f_index_brie, f_outer_aggr2, f_filter, f_join, f_join3, f_tc, f_mutual, f_negation, f_aggr, f_outer_aggr, f_strings, f_records, f_adt, f_eqrel, f_multi,
-             f_arith, f_indexed, f_eqrel_input, f_typed_input, f_io_relation, f_itercnt, f_two_inputs, f_nullary_rec, f_multi_index]
+             f_arith, f_indexed, f_eqrel_input, f_typed_input, f_io_relation, f_itercnt, f_two_inputs, f_nullary_rec, f_multi_index, f_wide]
 
 
 def f_input_derived(p):
@@ -548,7 +572,7 @@ def gen_c21(seed, size="quick"):
     """programs for the embedding-API histories: no relation that is both input and derived (the history model keeps inputs and
     derived relations apart); often with eqrel relations, eqrel / brie / typed input relations"""
     rr = random.Random(seed ^ 0x21)
-    always = tuple(f for f, pr in ((f_eqrel, 0.3), (f_eqrel_input, 0.4), (f_typed_input, 0.4), (f_io_relation, 0.5)) if rr.random() < pr)
+    always = tuple(f for f, pr in ((f_eqrel, 0.3), (f_eqrel_input, 0.4), (f_typed_input, 0.4), (f_io_relation, 0.5), (f_wide, 0.3)) if rr.random() < pr)
     return gen_c03(seed, size, exclude=(f_input_derived, f_two_inputs), always=(f_multi_index,) + always)
 
 
